@@ -1,6 +1,6 @@
 (* C15 — introspection is faithful; a token is active only if the server said so.
    Statements only; proofs in proofs/Serde_proofs.v. *)
-From OA Require Import Bytes Json Json_proofs Lower Serde SerdeSpec Serde_proofs Responses_proofs.
+From OA Require Import Bytes Json Json_proofs Lower Serde SerdeSpec Serde_proofs MapExt_proofs Responses_proofs.
 From Coq Require Import ZArith Permutation.
 Local Open Scope Z_scope.
 
@@ -67,6 +67,12 @@ End C15.
 Theorem C15_instances :
   ef_good ef_empty (fun _ => true) introspection_names /\ ef_good ef_ext ext_canon introspection_names.
 Proof. exact (conj (ef_empty_good introspection_names) ext_good_introspection). Qed.
+
+(* a map-typed extension is handed exactly the members the library does not know itself *)
+Theorem C15_map_extension :
+  forall m v, decode_introspection ef_map (JObj m) = Some v ->
+  forall k, In k (ir_extra v) <-> In k (map fst m) /\ is_known introspection_names k = false.
+Proof. exact introspection_map_extension. Qed.
 
 Example C15_example :
   option_map (fun r => (ir_active r, ir_token_type r, ir_exp r, ir_aud r))
